@@ -75,11 +75,11 @@ func MergeContexts(ctx1, ctx2 context.Context) (context.Context, context.CancelC
 	if ctx2 == bgContext {
 		return ctx1, noop
 	}
-	ctx, cancel := context.WithCancelCause(context.Background())
+	// Derive from ctx1 so that its values, deadline and cancellation are inherited
+	ctx, cancel := context.WithCancelCause(ctx1)
 	go func() {
 		select {
-		case <-ctx1.Done():
-			cancel(ctx1.Err())
+		case <-ctx.Done():
 		case <-ctx2.Done():
 			cancel(ctx2.Err())
 		}
